@@ -24,7 +24,9 @@ pub const PAYLOAD: [&str; 13] = [
     " -----BEGIN PGP SIGNED MESSAGE-----",
     "x-----BEGIN PGP SIGNED MESSAGE-----",
 ];
-pub const SIGLINES: [&str; 3] = ["iQ", "=ab", "x y"];
+pub const SIGLINES: [&str; 6] = ["iQ", "=ab", "x y", "", " -----END PGP SIGNATURE-----", "x-----BEGIN PGP SIGNATURE-----"];
+/// first lines of texts that are NOT signed messages although they look like armour
+pub const UNSIGNED_FIRST: [&str; 4] = ["-----BEGIN PGP SIGNATURE-----", "-----END PGP SIGNATURE-----", "-----BEGIN PGP SIGNED MESSAGE----- ", "-----BEGIN PGP SIGNED MESSAGE-----x"];
 pub const APPENDS: [&str; 4] = ["x\n", "\n", " ", "-----BEGIN PGP SIGNATURE-----\n"];
 const M_BEGIN: &str = "-----BEGIN PGP SIGNED MESSAGE-----";
 const M_SIG: &str = "-----BEGIN PGP SIGNATURE-----";
@@ -40,6 +42,8 @@ pub enum Fault {
     Append(usize),
     /// not a signed message at all: the payload alone
     Unsigned,
+    /// not a signed message: UNSIGNED_FIRST[k] as first line, then the payload
+    UnsignedFirst(usize),
 }
 
 #[derive(Clone, Serialize, Deserialize, PartialEq, Debug)]
@@ -146,7 +150,7 @@ impl Prop for C19 {
         "fault_enumeration"
     }
     fn rule(&self, _t: Tier) -> String {
-        "message family = every sequence of <= 2 armour headers x every sequence of <= 3 (thorough 4) payload lines from 13 templates (empty, deb822, indented, header look-alike, Unicode, and all three markers behind a letter / blank / tab or followed by a blank) x every sequence of <= 2 signature lines; faults, ALL of them per message: no fault, truncation after every line (0..all), every trailing addition from 4, the payload alone (unsigned passthrough), and for the sub-family with <= 1 header, <= 2 payload lines, <= 1 signature line every BYTE prefix; the expected result is computed from the construction offsets, never by re-scanning; all cases distinct; non-trivial = every case with a fault".into()
+        "message family = every sequence of <= 2 armour headers x every sequence of <= 3 (thorough 4) payload lines from 13 templates (empty, deb822, indented, header look-alike, Unicode, and all three markers behind a letter / blank / tab or followed by a blank) x every sequence of <= 2 signature lines from 6 (incl. an empty line and marker look-alikes); faults, ALL of them per message: no fault, truncation after every line (0..all), every trailing addition from 4, the payload alone and behind 4 armour-like first lines that are not the signed-message marker (unsigned passthrough), and for the sub-family with <= 1 header, <= 2 payload lines, <= 1 signature line every BYTE prefix; the expected result is computed from the construction offsets, never by re-scanning; all cases distinct; non-trivial = every case with a fault".into()
     }
     fn bounds(&self, t: Tier) -> Value {
         json!({"headers": HEADERS, "payload_lines": PAYLOAD, "signature_lines": SIGLINES, "appends": APPENDS, "max_headers": 2, "max_payload_lines": t.pick(3, 4), "max_signature_lines": 2})
@@ -168,6 +172,9 @@ impl Prop for C19 {
             f(&base);
             if headers.is_empty() && sig.is_empty() {
                 f(&C19Case { fault: Fault::Unsigned, ..base.clone() });
+                for k in 0..UNSIGNED_FIRST.len() {
+                    f(&C19Case { fault: Fault::UnsignedFirst(k), ..base.clone() });
+                }
             }
             for n in 0..m.n_lines {
                 f(&C19Case { fault: Fault::CutLines(n), ..base.clone() });
@@ -200,6 +207,10 @@ impl Prop for C19 {
             }
             Fault::Append(a) => (format!("{}{}", m.text, APPENDS[*a]), Err(Error::JunkAfterPgpSignature)),
             Fault::Unsigned => (m.payload.clone(), Ok((m.payload.clone(), None))),
+            Fault::UnsignedFirst(k) => {
+                let t = format!("{}\n{}", UNSIGNED_FIRST[*k], m.payload);
+                (t.clone(), Ok((t, None)))
+            }
         };
         if c.fault != Fault::None {
             st.nontrivial += 1;
